@@ -930,7 +930,7 @@ Section Phases.
     co_audit o = false ->
     let a := data_phase hashf bs newino now o c pos s in
     parity_phase nlev o pos (da_st a) = (rec, s1a) ->
-    repair hashf padz bs nlev reduced pos (co_nosearch o) fs0 (da_failed a) rec (da_buf a) (r_jn s1a) = (ROk, failed', buf, jn', rtags) ->
+    repair hashf padz bs nlev reduced pos (co_nosearch o) (search_view fs0 (r_fs s1a)) (da_failed a) rec (da_buf a) (r_jn s1a) = (ROk, failed', buf, jn', rtags) ->
     stripe_step hashf padz truncf bs nlev reduced newino now o c fs0 s pos
     = fold_left (file_post o c pos) (seq 0 (length (c_disks c)))
                 (ok_body o pos failed' rec buf (da_used a && da_valid a) (rs_tag (rs_setjn s1a jn') rtags)).
@@ -1229,7 +1229,7 @@ Section Phases.
     Hypothesis CFj : cf_junk hashf padz bs failed.
     Hypothesis CFr : cf_rec hashf padz bs failed rec v.
     Hypothesis CFv : cf_vec hashf padz bs failed v.
-    Hypothesis CFs : cf_search hashf bs (co_nosearch o) fs0 failed v.
+    Hypothesis CFs : forall fsx, cf_search hashf bs (co_nosearch o) fsx failed v.
     (* at most as many damaged blocks as intact parity levels *)
     Hypothesis Hcount : length (filter (is_bad c pos s) (seq 0 n)) <= length (filter (good_level v rec) (seq 0 nlev)).
     Hypothesis Hparlen : nlev <= length (r_par s).
@@ -1329,10 +1329,10 @@ Section Phases.
       (* the parity read *)
       pose proof (parity_phase_spec o pos (da_st a) (pl_popen o Hplain)) as Epp. rewrite Cpar in Epp. fold rec in Epp.
       (* repair *)
-      destruct (repair_restores hashf padz bs nlev reduced pos (co_nosearch o) fs0 failed rec v (da_buf a)
-                  (r_jn (da_st a)) Hblk Hhv CFj CFr CFv CFs Hag Hcnt) as [buf' [jn' [rtags [Erep [Hfl1 Hfl2]]]]].
+      destruct (repair_restores hashf padz bs nlev reduced pos (co_nosearch o) (search_view fs0 (r_fs (da_st a))) failed rec v (da_buf a)
+                  (r_jn (da_st a)) Hblk Hhv CFj CFr CFv (CFs _) Hag Hcnt) as [buf' [jn' [rtags [Erep [Hfl1 Hfl2]]]]].
       cbn zeta.
-      erewrite (stripe_step_ok o c fs0 pos s rec _ failed buf' jn' rtags); [| exact (pl_audit o Hplain) | fold a; exact Epp | fold a; rewrite Ifailed; cbn [r_jn]; exact Erep].
+      erewrite (stripe_step_ok o c fs0 pos s rec _ failed buf' jn' rtags); [| exact (pl_audit o Hplain) | fold a; exact Epp | fold a; rewrite Ifailed; cbn [r_jn r_fs]; exact Erep].
       fold a. rewrite Iused, Ivalid.
       assert (Eu : existsb (fun j => slot_has_file (slot_of c pos j)) (seq 0 n) = true).
       { destruct Hsync as [_ [j Hj]]. apply existsb_exists. exists j. split; [|exact Hj].
@@ -1717,7 +1717,7 @@ Section Phases.
     Hypothesis CFj : cf_junk hashf padz bs failed.
     Hypothesis CFr : cf_rec hashf padz bs failed rec v.
     Hypothesis CFv : cf_vec hashf padz bs failed v.
-    Hypothesis CFs : cf_search hashf bs (co_nosearch o) fs0 failed v.
+    Hypothesis CFs : forall fsx, cf_search hashf bs (co_nosearch o) fsx failed v.
     Hypothesis Hcount : length (filter (is_bad c pos s) (seq 0 n)) <= length (filter (good_level v rec) (seq 0 nlev)).
 
     Lemma par_matches_veq' x y p : veq x y = true -> par_matches x p = par_matches y p.
@@ -1781,10 +1781,10 @@ Section Phases.
       (* the parity read *)
       pose proof (parity_phase_spec o pos (da_st a) (pl_popen o Hplain)) as Epp. rewrite Cpar in Epp. fold rec in Epp.
       (* repair *)
-      destruct (repair_restores hashf padz bs nlev reduced pos (co_nosearch o) fs0 failed rec v (da_buf a)
-                  (r_jn (da_st a)) Hblk Hhv CFj CFr CFv CFs Hag Hcnt) as [buf' [jn' [rtags [Erep [Hfl1 Hfl2]]]]].
+      destruct (repair_restores hashf padz bs nlev reduced pos (co_nosearch o) (search_view fs0 (r_fs (da_st a))) failed rec v (da_buf a)
+                  (r_jn (da_st a)) Hblk Hhv CFj CFr CFv (CFs _) Hag Hcnt) as [buf' [jn' [rtags [Erep [Hfl1 Hfl2]]]]].
       cbn zeta.
-      erewrite (stripe_step_ok o c fs0 pos s rec _ failed buf' jn' rtags); [| exact (pl_audit o Hplain) | fold a; exact Epp | fold a; rewrite Ifailed; cbn [r_jn]; exact Erep].
+      erewrite (stripe_step_ok o c fs0 pos s rec _ failed buf' jn' rtags); [| exact (pl_audit o Hplain) | fold a; exact Epp | fold a; rewrite Ifailed; cbn [r_jn r_fs]; exact Erep].
       fold a. rewrite Iused, Ivalid.
       assert (Eu : existsb (fun j => slot_has_file (slot_of c pos j)) (seq 0 n) = true).
       { destruct Hsync as [_ [j Hj]]. apply existsb_exists. exists j. split; [|exact Hj].
@@ -1793,7 +1793,7 @@ Section Phases.
       assert (Epart : filter (fun e => fe_bad e && fe_ood e) failed = []).
       { apply filter_nil. intros e He. destruct (Hblk e He) as [_ [Ho _]]. rewrite Ho. apply andb_false_r. }
       rewrite Epart. cbn [fold_left]. rewrite Hcheck. rewrite compare_phase_spec.
-      pose proof (repair_tags pos (co_nosearch o) fs0 failed rec (da_buf a) (r_jn (da_st a))) as Hrt. rewrite Erep in Hrt. cbn [snd] in Hrt.
+      pose proof (repair_tags pos (co_nosearch o) (search_view fs0 (r_fs (da_st a))) failed rec (da_buf a) (r_jn (da_st a))) as Hrt. rewrite Erep in Hrt. cbn [snd] in Hrt.
       assert (Hfull : forall j, j < n -> vnth buf' j = vnth v j) by (intros j Hj; apply Hfl2; rewrite Hbuflen; exact Hj).
       assert (Hveq : veq v buf' = true).
       { apply veq_spec. intro i. destruct (Nat.lt_ge_cases i n) as [H|H]; [symmetry; apply Hfull; exact H|].
